@@ -85,6 +85,36 @@ TABLE = {
             {"driver": "chan-seq", "required_clauses": ["callback-legitimacy", "dispatch-owed"]},
         ],
     },
+    "C09": {
+        "level": "model_checking", "rule": WORLD_RULE, "assumptions": SEQ_ASSUME + ["scripted sources are harness-defined composites over Generic children; when the same callback also removes its own source, or when event processing fails, only the final state of that source and the absence of any effect on others are required (statement is silent on the combination)"],
+        "drivers": [
+            {"driver": "postaction", "required_clauses": ["post-action", "registration-counters", "scripted-callback", "dispatch-end"]},
+            {"driver": "pa-table", "required_clauses": ["bitor-table"], "shards": 1, "replayable": False},
+        ],
+    },
+    "C13": {
+        "level": "model_checking", "rule": WORLD_RULE, "assumptions": SEQ_ASSUME + ["Idle::cancel of the idle that is currently running is not generated (excluded: it double-borrows by construction)"],
+        "drivers": [
+            {"driver": "idle", "required_clauses": ["idle-run", "idles", "scripted-callback"]},
+        ],
+    },
+    "C14": {
+        "level": "model_checking", "rule": WORLD_RULE, "assumptions": SEQ_ASSUME,
+        "drivers": [
+            {"driver": "lifecycle", "required_clauses": ["lifecycle", "scripted-callback", "registration-counters"]},
+            {"driver": "faults", "required_clauses": ["lifecycle", "failed-insert", "failed-registration-call"]},
+        ],
+    },
+    "C15": {
+        "level": "fault_enumeration", "rule": ("every registration / re-registration / unregistration call of every scripted (sub-)source in every history up to the depth bound is a fault point (one deviation each: fail now), "
+                 "and every callback may make its source's event processing return an error; after the fault the history continues and closes with fault-free dispatches. distinct = distinct observation logs; "
+                 "non-trivial = a callback ran and at least one fault or in-callback deviation took effect"),
+        "assumptions": SEQ_ASSUME + ["faults are injected errors at the composite's registration steps (children registered before the failing step stay registered, as with a '?' in user code); a composite that is left partially registered by a failed enable/update/disable is its own business — the oracle protects the other sources and the loop bookkeeping"],
+        "drivers": [
+            {"driver": "faults", "required_clauses": ["failed-insert", "failed-registration-call", "dispatch-end", "scripted-callback"]},
+            {"driver": "postaction", "required_clauses": ["post-action"]},
+        ],
+    },
     "C10": {
         "level": "model_checking", "rule": SCHED_RULE, "assumptions": T_ASSUME,
         "drivers": [
